@@ -18,7 +18,7 @@ ASSUMPTIONS = {
 PROPS = {
     "C01": {"level": "exploration", "profiles": [
         {"id": "C01bf", "quick_n": 1500, "thorough_n": 2000000000, "quick_s": 60, "thorough_s": 600, "seed_off": 700000,
-         "rule": "branch-file commits: initial `commit --set-file --set-primary-key` then 2..6 steps {edit | touch | nothing} x {-p permutation / other key / none} x {config primaryKey change} x {--no-cache, --all, diff --branch-file first} x ASCII and multi-byte delimiters, file mtime stamped from the simulated clock; after every run the branch table (raw and exported) must be the model of the file as it now is under the key in force; non-trivial = >=3 steps, >=1 unchanged-file run, >=1 key change"},
+         "rule": "branch-file commits: initial `commit --set-file --set-primary-key` then 2..6 steps {edit | touch | nothing} x {-p permutation / other key / none} x {config primaryKey change} x {--no-cache, --all, diff --branch-file first} x ASCII and multi-byte delimiters, file mtime stamped from the simulated clock; after every run the branch table (raw and exported) must be the model of the file as it now is under the key in force, and a run whose columns, key and rows equal what the branch holds must not move it (C02's 'no change' clause); non-trivial = >=3 steps, >=1 unchanged-file run, >=1 key change"},
         {"id": "C01cli", "quick_n": 2000, "thorough_n": 2000000000, "quick_s": 60, "thorough_s": 600, "seed_off": 500000,
          "rule": "same generator through the in-process CLI: `wrgl commit -n N --mem-limit M --delimiter D` then `wrgl export`, parsed back and compared with the model; non-trivial = >=2 rows and (duplicate keys or >255 rows or spill)"},
         {"id": "C01", "quick_n": 6000, "thorough_n": 2000000000, "quick_s": 60, "thorough_s": 900,
